@@ -321,3 +321,80 @@ def grouping_id_arithmetic(mod, fd):
                     o = order_sensitive(me)
                     if o and mentions_param(other) and not order_sensitive(other):
                         yield (f"{fd.name}|{ast.unparse(b)[:80]}", b.lineno, f"`{ast.unparse(b)[:80]}` builds an id from an id column and a `{o}` over the whole dataset: the running number depends on the rows of other groups and the new id can coincide with another group's id")
+
+
+# ------------------------------------------------------------------ person pointers inside row loops
+def _pointer_params(fd):
+    return {a.arg for a in fd.args.args if (a.arg.startswith("p_id_") or a.arg == "foreign_key")}
+
+
+def pointer_findings(mod, fd, kind):
+    """W6: an element of a pointer column (-1 = nobody) indexes a *sequence* (numpy array / list) only under a
+    guard excluding negative values - a negative index silently selects from the end.  (Dictionaries are safe:
+    -1 is simply not a key.)
+    W7 (functions whose result is data, not a group id): a mapping that is filled inside a row loop is not read,
+    in the same loop, under a pointer key - rows listed before the row they point to would see a missing entry.
+    yields (rule, key, lineno, message)"""
+    from staticlib.guards import Dominance, eval_sized
+
+    ptr_params = _pointer_params(fd)
+    if not ptr_params:
+        return
+    dom = Dominance(fd)
+    seqs, maps = set(), set()
+    for st in walk_own(fd):
+        if isinstance(st, ast.Assign) and len(st.targets) == 1 and isinstance(st.targets[0], ast.Name):
+            v = st.value
+            nm = st.targets[0].id
+            if isinstance(v, ast.Call):
+                f = ast.unparse(v.func).split(".")[-1]
+                if f in ALLOCATORS or f in ("array", "asarray", "list"):
+                    seqs.add(nm)
+                if f in ("dict", "Counter", "defaultdict", "OrderedDict"):
+                    maps.add(nm)
+            elif isinstance(v, (ast.List, ast.ListComp)) or (isinstance(v, ast.BinOp) and isinstance(v.left, ast.List)):
+                seqs.add(nm)
+            elif isinstance(v, (ast.Dict, ast.DictComp)):
+                maps.add(nm)
+    for loop in [n for n in walk_own(fd) if isinstance(n, ast.For)]:
+        # names holding an element of a pointer column in this loop
+        ptr_el, idx_names = set(), set()
+        it, tg = loop.iter, loop.target
+        if isinstance(it, ast.Call) and isinstance(it.func, ast.Name) and it.func.id == "zip":
+            elts = tg.elts if isinstance(tg, ast.Tuple) else [tg]
+            for a, t in zip(it.args, elts):
+                if isinstance(a, ast.Name) and a.id in ptr_params and isinstance(t, ast.Name):
+                    ptr_el.add(t.id)
+        elif isinstance(it, ast.Call) and isinstance(it.func, ast.Name) and it.func.id == "enumerate" and isinstance(tg, ast.Tuple) and len(tg.elts) == 2:
+            if isinstance(tg.elts[0], ast.Name):
+                idx_names.add(tg.elts[0].id)
+            if it.args and isinstance(it.args[0], ast.Name) and it.args[0].id in ptr_params and isinstance(tg.elts[1], ast.Name):
+                ptr_el.add(tg.elts[1].id)
+        elif isinstance(it, ast.Name) and it.id in ptr_params and isinstance(tg, ast.Name):
+            ptr_el.add(tg.id)
+        elif isinstance(it, ast.Call) and isinstance(it.func, ast.Name) and it.func.id == "range" and isinstance(tg, ast.Name):
+            idx_names.add(tg.id)
+        for st in ast.walk(loop):
+            if isinstance(st, ast.Assign) and len(st.targets) == 1 and isinstance(st.targets[0], ast.Name) and isinstance(st.value, ast.Subscript) \
+                    and isinstance(st.value.value, ast.Name) and st.value.value.id in ptr_params and isinstance(st.value.slice, ast.Name) and st.value.slice.id in idx_names:
+                ptr_el.add(st.targets[0].id)
+        if not ptr_el:
+            continue
+        filled = {st.targets[0].value.id for st in ast.walk(loop) if isinstance(st, ast.Assign) and isinstance(st.targets[0], ast.Subscript) and isinstance(st.targets[0].value, ast.Name)}
+        filled |= {st.target.value.id for st in ast.walk(loop) if isinstance(st, ast.AugAssign) and isinstance(st.target, ast.Subscript) and isinstance(st.target.value, ast.Name)}
+        for sub in ast.walk(loop):
+            if isinstance(sub, ast.Subscript) and isinstance(sub.value, ast.Name) and isinstance(sub.slice, ast.Name) and sub.slice.id in ptr_el:
+                base, key = sub.value.id, sub.slice.id
+                if base in seqs:
+                    feasible = True
+                    for t, pol in dom.of(sub):
+                        v = eval_sized(t, {key: -1})
+                        if v is not None and v != pol:
+                            feasible = False
+                    if feasible:
+                        yield ("W6", f"{ast.unparse(sub)}", sub.lineno, f"`{ast.unparse(sub)}` indexes the sequence `{base}` with an element of a pointer column without a guard excluding -1 (nobody): a negative index selects from the END of the array - the entry of the person with the largest id - so the result depends on who that is and on the row order")
+                if kind != "grouping" and base in filled and (base in maps or base not in seqs) and isinstance(sub.ctx, ast.Load):
+                    yield ("W7", f"{ast.unparse(sub)}", sub.lineno, f"`{ast.unparse(sub)}` reads `{base}` under another row's id while the same loop is still filling it: a row listed before the row it points to finds no entry (or a stale one) - the result depends on the row order")
+            if kind != "grouping" and isinstance(sub, ast.Call) and isinstance(sub.func, ast.Attribute) and sub.func.attr in ("get", "pop", "setdefault") and isinstance(sub.func.value, ast.Name) \
+                    and sub.func.value.id in filled and sub.args and isinstance(sub.args[0], ast.Name) and sub.args[0].id in ptr_el:
+                yield ("W7", f"{ast.unparse(sub)[:60]}", sub.lineno, f"`{ast.unparse(sub)[:70]}` reads `{sub.func.value.id}` under another row's id while the same loop is still filling it: a row listed before the row it points to gets the default - the result depends on the row order")
